@@ -19,6 +19,12 @@ THEOREMS_SIM = ["Slock.SimP.abs_is_key_local", "Slock.SimP.lock_branch_refines",
                 "Slock.SimP.wake_pass_refines", "Slock.SimP.sim_lock_grant", "Slock.SimP.sim_unlock_hold", "Slock.SimP.sim_lock_hold", "Slock.SimP.reachable_ki", "Slock.SimP.SimInv.of_reachable", "Slock.SimP.sim_unlock_cancel", "Slock.SimP.reachable_ks", "Slock.SimP.wait_priority_refines", "Slock.SimP.sim_lock", "Slock.SimP.sim_unlock"]
 # the closing statement, runs with clock ticks on the leader (Slock/Properties/EngineSimRun.lean)
 THEOREMS_SIMRUN = ["Slock.SimP.sim_step", "Slock.SimP.sim_run", "Slock.SimP.C01_mutex_transfers"]
+# `RunOK` discharged from syntactic premises: no value frames (the "no value cell / no pending frame" invariant of frame-free runs,
+# Slock/Proofs/Engine2CellNone*.lean) + ticks on the leader (Slock/Properties/EngineSimFrameFree.lean)
+THEOREMS_SIMFF = ["Slock.CellNone.run_dn", "Slock.CellNone.run_init_cell_none", "Slock.CellNone.step_dn",
+                  "Slock.SimP.frameFree_cell_none", "Slock.SimP.leaderTicks_iff", "Slock.SimP.runOK_of_frameFree", "Slock.SimP.frameFree_of_runOK",
+                  "Slock.SimP.runOK_init_iff", "Slock.SimP.sim_run_frameFree", "Slock.SimP.sim_run_frameFree_syn",
+                  "Slock.SimP.C01_mutex_transfers_frameFree", "Slock.SimP.C01_mutex_transfers_frameFree_syn"]
 # the clock tick: both sweeps of the record-level model against stage 1's opTick (Slock/Properties/EngineSimTick.lean)
 THEOREMS_SIMTICK = ["Slock.SimP.sim_tick", "Slock.SimP.opTick_respects_equiv", "Slock.SimP.reachable_kt", "Slock.SimP.reachable_sy",
                     "Slock.SimP.Inv1.init",
@@ -108,11 +114,13 @@ THEOREMS_SIMTRANSFER = ["Slock.SimP.key_view", "Slock.SimP.transfer_key", "Slock
 
 def audit_sim(ctx):
     """The stage-2 -> stage-1 simulation theorems proved so far (to be called from c01.py … c06.py / c17.py)."""
-    ctx.lake_build(["Slock.Properties.EngineSim", "Slock.Properties.EngineSimTick", "Slock.Properties.EngineSimRun", "Slock.Properties.EngineSimTransfer"])
+    ctx.lake_build(["Slock.Properties.EngineSim", "Slock.Properties.EngineSimTick", "Slock.Properties.EngineSimRun", "Slock.Properties.EngineSimTransfer",
+                    "Slock.Properties.EngineSimFrameFree"])
     ctx.audit("Slock.Properties.EngineSimTransfer", THEOREMS_SIMTRANSFER)
     ctx.audit("Slock.Properties.EngineSim", THEOREMS_SIM)
     ctx.audit("Slock.Properties.EngineSimTick", THEOREMS_SIMTICK)
     ctx.audit("Slock.Properties.EngineSimRun", THEOREMS_SIMRUN)
+    ctx.audit("Slock.Properties.EngineSimFrameFree", THEOREMS_SIMFF)
 
 
 def run_c15_engine(ctx):
